@@ -5,7 +5,7 @@
 set -euo pipefail
 export GOFLAGS=-mod=mod GOPROXY=off GOSUMDB=off GOTOOLCHAIN=local CGO_ENABLED=1
 export PATH=/opt/veriftools/go1.26.8/bin:$PATH
-V=/verif
+V="$(dirname "$(readlink -f "$0")")"
 WORK=$V/.work
 mkdir -p $WORK/bin
 PKGS="
